@@ -22,6 +22,7 @@ type thread struct {
 	cond    func() bool // non-nil: parked until the predicate holds
 	daemon  bool        // spawned by the code under test (go statement)
 	body    func()
+	kind    int           // kind of the next logged access of this thread (0 = unspecified)
 	dead    chan struct{} // closed when the goroutine has gone
 }
 
@@ -48,6 +49,7 @@ var (
 	finished    chan struct{}
 	Acc         []int // thread id of every logged (sync) access, in execution order
 	AccChoice   []int // parallel to Acc: the select case taken (index among the ready ones), -1 otherwise
+	AccKind     []int // parallel to Acc: what the access is (K* constants; 0 = unspecified)
 	// Picker, when set, decides the scheduling points beyond the forced prefix:
 	// it gets the ids of the runnable threads (the current one first when
 	// canStay) and returns an index into them.
@@ -108,11 +110,46 @@ func Atomic(f func()) {
 	f()
 }
 
+// Access kinds: the replayer compares them with the kind of the model step (a
+// Load swapped for a CAS, an RLock for a Lock, ... keeps the number of accesses).
+const (
+	KLoad, KStore, KCas, KAdd, KSwap               = 1, 2, 3, 4, 5
+	KLock, KUnlock, KRLock, KRUnlock, KTryLock     = 10, 11, 12, 13, 14
+	KSend, KRecv, KClose, KSelect, KChanLen        = 20, 21, 22, 23, 24
+	KWgAdd, KWgWait                                = 30, 31
+	KCtx, KCancel                                  = 40, 41
+	KTimerNew, KTimerStop, KTimerReset, KAfterFunc = 50, 51, 52, 53
+	KInvoke, KHarness, KTick, KQueueOp, KAdderOp   = 90, 91, 92, 93, 94
+	KListener                                      = 95
+)
+
+// K announces the kind of the calling thread's next logged access.
+func K(k int) {
+	if active && atomicDepth == 0 {
+		cur.kind = k
+	}
+}
+
+// StepK is K followed by Step.
+func StepK(k int) {
+	if !active || atomicDepth > 0 {
+		return
+	}
+	cur.kind = k
+	Step()
+}
+
+func logKind() {
+	AccKind = append(AccKind, cur.kind)
+	cur.kind = 0
+}
+
 // Log records one sync access of the running thread.
 func Log() {
 	if active && atomicDepth == 0 {
 		Acc = append(Acc, cur.id)
 		AccChoice = append(AccChoice, -1)
+		logKind()
 	}
 }
 
@@ -121,6 +158,7 @@ func LogChoice(k int) {
 	if active && atomicDepth == 0 {
 		Acc = append(Acc, cur.id)
 		AccChoice = append(AccChoice, k)
+		logKind()
 	}
 }
 
@@ -133,6 +171,7 @@ func Step() {
 	Yield()
 	Acc = append(Acc, cur.id)
 	AccChoice = append(AccChoice, -1)
+	logKind()
 }
 
 // Plain is an unlogged scheduling point (statement-level instrumentation).
@@ -420,6 +459,7 @@ func Run(bodies []func(), forced []int) []Choice {
 	defer mu.Unlock()
 	threads = nil
 	prefix, Trace, Sched, preempts, steps, Aborted, Acc, AccChoice = forced, nil, nil, 0, 0, "", nil, nil
+	AccKind = nil
 	lastRun, consecutive = -1, 0
 	finished = make(chan struct{})
 	for _, body := range bodies {
